@@ -3,7 +3,7 @@
 // value   := s:<hex>|i:<n>|f:<16 hex bits>|p:<c>:<c>|id:<type>:<nshex>:<n>|x:<hex>|l:<atom>|<atom>…   (l: = empty list)
 // coord c := <E7 integer> | nan | +inf | -inf | big
 // feature := <id>!<body>!<key>=<value>&<key>=<value>…
-// body    := g | a:<poly>;<poly>… | r:<id>~<rolehex>,… | c:<atom>><atom>,…
+// body    := g | a:<poly>;<poly>… | r:<id>~<rolehex>,… | c:<atom>><atom>,… | cs:… (built, then Sort())
 // poly    := i<id>+<id>… | p<lat>_<lng>~<lat>_<lng>…/<loop>…
 // Feature ids are model numbers digit*1000+value in the namespace NS (digit 0 point, 1 path, 2 area,
 // 3 relation, 4 collection); id atoms carry the raw b6.FeatureType number.
@@ -312,10 +312,15 @@ func (f Feat) Build() ingest.Feature {
 		}
 		r.Tags = b6Tags(f.Tags)
 		return r
-	case strings.HasPrefix(f.Body, "c:"):
+	case strings.HasPrefix(f.Body, "c:"), strings.HasPrefix(f.Body, "cs:"):
+		// cs: = the same, then CollectionFeature.Sort() (the entries are listed in key order already)
+		body := f.Body[strings.Index(f.Body, ":")+1:]
 		c := &ingest.CollectionFeature{CollectionID: id.ToCollectionID(), Tags: b6Tags(f.Tags)}
-		if f.Body != "c:" {
-			for _, e := range strings.Split(f.Body[2:], ",") {
+		if strings.HasPrefix(f.Body, "cs:") {
+			defer c.Sort()
+		}
+		if body != "" {
+			for _, e := range strings.Split(body, ",") {
 				kv := strings.Split(e, ">")
 				c.Keys = append(c.Keys, literalOf(kv[0]))
 				c.Values = append(c.Values, literalOf(kv[1]))
